@@ -139,6 +139,11 @@ def run_S(pid, tier, seed, cp_mode="real", props_monitored=None, extra_fail_sig=
             facts_total["skipped"] = facts_total.get("skipped", 0) + 1
             if obs.get("config_refused"):
                 failures.append(Failure("correspondence", "valid-configuration-refused", sc, dict(raised=obs["config_refused"]), slice_="S"))
+            if obs.get("creation_hung"):
+                # building the executor did not return within 10 s: C09 (every executor call terminates — it cannot even be
+                # made); for the other properties the model's run is not matched (a correspondence failure)
+                failures.append(Failure("counterexample" if pid == "C09" else "correspondence", "executor-creation-did-not-return", sc,
+                                        dict(selection=sc.get("sel"), run_debug=sc.get("run_debug")), slice_="S"))
             return
         V, f = S.monitors(sc, obs)
         facts_total["evaluations"] += 1
@@ -164,6 +169,9 @@ def run_S(pid, tier, seed, cp_mode="real", props_monitored=None, extra_fail_sig=
     for k, sc in scenario_stream(seed, B["s_runs"], pid):
         obs = S.run_scenario(sc, timeout=15)
         one("r%s" % k, sc, obs)
+        if obs.get("creation_hung"):
+            hung = True      # a spinning thread stays behind in this process: stop exploring
+            break
         if obs.get("outcome", ("",))[0] == "hang":
             nhangs += 1
             # a scheduler that spins through the wait primitives has been stopped (control.Kill): go on, a few times;
@@ -936,9 +944,17 @@ def run_G(pid, tier, seed):
             stats["with_debug_nodes"] += 1
         # selections
         stored_setups = {}       # setup values earlier executors computed on the instance `d` (kept for some of the runs)
+        prev_rx = None
         for j in range(B["g_sels"]):
             dbg = rng.random() < 0.5 if pid != "C12" else rng.random() < 0.2
-            R, X, T, resolve = choose_selection(rng, sc, pos, preds)
+            if prev_rx is not None and rng.random() < 0.7:
+                # directed: the SAME roots again, on the same instance, without the exclusion the previous selection had
+                # (whatever that one left on the instance must not shrink this one)
+                R, X, T, resolve = prev_rx[0], None, None, prev_rx[1]
+                stats["same_roots_again_without_the_exclusion"] = stats.get("same_roots_again_without_the_exclusion", 0) + 1
+            else:
+                R, X, T, resolve = choose_selection(rng, sc, pos, preds)
+            prev_rx = None
             if sc.pop("_directed_debug", False) and pid != "C12" and rng.random() < 0.6:
                 dbg = True       # the directed shape only matters when debug nodes are pulled in
             G.set_debug(dbg)
@@ -1007,6 +1023,8 @@ def run_G(pid, tier, seed):
             meta.append(("sel", dict(real=real, case=case, resolved=(Rr, Xr, Tr), dbg=dbg,
                                      debug_nodes=[x for x in range(len(ids_)) if debug[x]])))
             # ---- monitors independent of the Lean model
+            if real[0] == "SEL" and R and X and T is None:
+                prev_rx = (R, resolve)
             if real[0] == "SEL":
                 got = set(real[1])
                 clo = G.py_closure(preds, Rr, Xr, Tr)
@@ -1041,7 +1059,7 @@ def run_G(pid, tier, seed):
                 if pid in ("C12", "C13") and ex is not None and j < 3:
                     stats["exec_runs"] += 1
                     _check_values(pid, sc, d, ex, ids_, pos, preds, got, ("g", k), bad, case, stored=stored_setups)
-                    if stored_setups and rng.random() < 0.5:
+                    if (stored_setups and rng.random() < 0.5) or prev_rx is not None:
                         stats["executors_on_an_instance_with_a_past"] = stats.get("executors_on_an_instance_with_a_past", 0) + 1
                     else:
                         d, _nodes = G.build(sc, inst=("g", k))   # fresh instance (no setup state)
@@ -1246,7 +1264,7 @@ reg("C07", ["Props.C07_cp_is_own_plus_distinct_descendants", "GM.C07_cp_order_in
             "Props.C07_configuration_law", "Props.C07_configuration_refused_iff", "Props.C07_configuration_idempotent",
             "Props.C07_refused_configuration_changes_nothing", "Props.C07_retry_after_refusal"],
     run_G, ASSUME_G)
-reg("C12", ["GM.C12_closure", "Props.C12_selection_is_closure", "GM.selectNodes_none", "GM.mem_descAll_iff", "Props.C12_restriction_keeps_values", "Props.C12_alias_tag_wins", "Props.C12_alias_id", "Props.C12_alias_unknown_refused", "Props.C12_alias_list_is_union", "Props.C12_alias_list_refused_iff", "Props.C12_unselected_nodes_keep_their_value", "Props.C12_targets_only"], run_G, ASSUME_G)
+reg("C12", ["GM.C12_closure", "Props.C12_selection_is_closure", "GM.selectNodes_none", "GM.mem_descAll_iff", "Props.C12_restriction_keeps_values", "Props.C12_alias_tag_wins", "Props.C12_alias_id", "Props.C12_alias_unknown_refused", "Props.C12_alias_list_is_union", "Props.C12_alias_list_refused_iff", "Props.C12_unselected_nodes_keep_their_value", "Props.C12_targets_only", "Props.C12_empty_lists"], run_G, ASSUME_G)
 
 
 # ---------------------------------------------------------------------------------------------
@@ -1825,7 +1843,7 @@ def with_malformed(run, kinds):
 
 
 reg("C13", ["Props.C13_pulled_debug_has_inputs", "Props.C13_flag_off_no_debug", "Props.C13_debug_nodes_never_influence", "Props.C12_selection_is_closure",
-            "Props.C13_C11_build_rule", "Props.C13_accepted_table_debug_never_influences"],
+            "Props.C13_C11_build_rule", "Props.C13_accepted_table_debug_never_influences", "Props.C13_flag_on_runs_debug_nodes"],
     with_malformed(with_S(run_G), ["normal-on-debug"]), ASSUME_G)
 def nested_setup_histories():
     """A setup node inside a DAG that an outer DAG calls — plainly, or under an activation flag computed at run time — is
